@@ -7,6 +7,7 @@ import TF.Proofs.XFieldInv
 import TF.Proofs.BFieldMore
 import TF.Proofs.XFieldMore
 import TF.Proofs.XFieldK
+import TF.Proofs.XFieldCyc
 import TF.Proofs.GenBridgeBField
 import TF.Proofs.GenBridgePacc
 import TF.Proofs.GenBridgeBFieldOk
@@ -687,5 +688,28 @@ theorem gen_loops_ok (a : Nat) (ha : a < P) :
   · exact TF.GenBridge.BField.gen_inverse_ok_true a ha h
 example : bfe_new 18446744069414584320 < P ∧ bfe_new 18446744069414584320 ≠ BF.zero ∧
     Loops.bfe_inverse_ok (bfe_new 18446744069414584320) = true := by decide +kernel
+
+end TF.C01
+
+/-! ## `get_cyclic_group_elements` on the extension field in terms of the multiplicative order -/
+namespace TF.C01
+open TF.Gen TF.BF TF.Model
+
+/-- **`XFieldElement::get_cyclic_group_elements(max)` for a non-zero element, with and without a bound** — the analogue
+    of `get_cyclic_group_elements_exact` for the extension field.  `k` is the multiplicative order of `g` (least positive
+    exponent with `g^k = 1`, `k ∣ P³ − 1`); the call returns exactly `L = TF.XK.cycLen k max` elements `[1, g, …, g^(L−1)]`,
+    `L = max k 2` without a bound, `L = min (max k 2) (max m 2)` with the bound `m` (a bound of 0 or 1 acts like 2), for
+    every fuel `≥ L − 1` -/
+theorem xfe_get_cyclic_group_elements_order_exact (g : XF.X3) (hg : TF.XFp.canon3 g) (hnz : g ≠ XF.zero) :
+    ∃ k, 0 < k ∧ k ∣ P ^ 3 - 1 ∧ TF.XFp.xnpow (XF.toVal g) k = TF.Spec.xone ∧
+      (∀ j, 0 < j → j < k → TF.XFp.xnpow (XF.toVal g) j ≠ TF.Spec.xone) ∧
+      ∀ (mx : Option Nat) (fuel : Nat), TF.XK.cycLen k mx ≤ fuel + 1 →
+        ∃ l, XF.cyclicGroup fuel g mx = some l ∧ (∀ x ∈ l, TF.XFp.canon3 x) ∧ l.length = TF.XK.cycLen k mx ∧
+          l.map XF.toVal = (List.range (TF.XK.cycLen k mx)).map (TF.XFp.xnpow (XF.toVal g)) :=
+  TF.XK.x_cyclicGroup_order g hg hnz
+example : TF.XK.cycLen 4 none = 4 ∧ TF.XK.cycLen 4 (some 3) = 3 ∧ TF.XK.cycLen 4 (some 0) = 2 ∧ TF.XK.cycLen 1 none = 2 ∧
+    XF.cyclicGroup 10 (XF.lift (bfe_new 281474976710656)) (some 3) =
+      some [XF.one, XF.lift (bfe_new 281474976710656), XF.lift (bfe_new 18446744069414584320)] := by
+  refine ⟨by decide, by decide, by decide, by decide, by decide +kernel⟩
 
 end TF.C01
